@@ -199,9 +199,11 @@ package peering
 //@   callsite Peering.RemoveLink only-the-link-that-was-closed [C16]: arg1 == link
 //@ func LinkBase.setupWorker
 //@   requires link != nil
+//@   callsite LinkBase.startWorkers workers-start-only-after-registration [C16]: called("Peering.AddLink")
 //@   callsite Peering.AddLink only-after-complete-handshake [C04]: peeringState != nil && peeringState.step == 4 && peeringState.session != nil && link.peer == peeringState.session.address.IP && link.encSession != nil
 //@ func LinkBase.handleSetup
 //@   requires link != nil
+//@   callsite LinkBase.startWorkers workers-start-only-after-registration [C16]: called("Peering.AddLink")
 //@   callsite Peering.AddLink only-after-complete-handshake [C04]: peeringState != nil && peeringState.step == 4 && peeringState.session != nil && link.peer == peeringState.session.address.IP && link.encSession != nil
 //@ func Peering.AddLink
 //@   callers LinkBase.setupWorker, LinkBase.handleSetup
